@@ -900,13 +900,13 @@ impl SvgElement {
     }
 
     fn bbox_raw(&self) -> Result<Option<BoundingBox>> {
-        let bbox = self.bbox_raw_inner()?;
-        if bbox.is_some() && self.has_unresolved_geometry() {
+        if self.has_unresolved_geometry() {
             // Not positioned yet: a box computed now would silently use default (zero)
-            // coordinates. Fail instead; the referring element is retried later.
+            // coordinates, or be missing altogether (e.g. size still given as `wh`).
+            // Fail instead; the referring element is retried later.
             return Err(SvgdxError::MissingBoundingBox(self.to_string()));
         }
-        Ok(bbox)
+        self.bbox_raw_inner()
     }
 
     fn bbox_raw_inner(&self) -> Result<Option<BoundingBox>> {
@@ -1291,10 +1291,12 @@ impl SvgElement {
                 Some(el) => el,
                 None => return Ok(()),
             };
-            if let (Some(bbox), Some(skip_rp_sep)) = (
-                ctx.get_element_bbox(ref_el)?,
-                remain.strip_prefix(RELPOS_SEP),
-            ) {
+            if let Some(skip_rp_sep) = remain.strip_prefix(RELPOS_SEP) {
+                // No bbox (yet): e.g. a group which hasn't been processed. Fail so this
+                // element is retried, rather than leave it without its relative position.
+                let bbox = ctx
+                    .get_element_bbox(ref_el)?
+                    .ok_or_else(|| SvgdxError::MissingBoundingBox(ref_el.to_string()))?;
                 let parts = skip_rp_sep.find(|c: char| c.is_whitespace());
                 let (reldir, remain) = if let Some(split_idx) = parts {
                     let (a, b) = skip_rp_sep.split_at(split_idx);
